@@ -223,7 +223,19 @@ def detok(tok: str, depth: int = 6) -> str:
 
     def rep(m):
         i = int(m.group(1))
-        return detok(_INTERN_TEXT[i], depth - 1) if depth > 0 and i < len(_INTERN_TEXT) else m.group(0)
+        if not (depth > 0 and i < len(_INTERN_TEXT)):
+            return m.group(0)
+        txt = detok(_INTERN_TEXT[i], depth - 1)
+        nxt = tok[m.end():m.end() + 1]
+        if nxt in (".", "[") and not _re.fullmatch(r"[\w$.]+", txt):
+            try:
+                atomic = isinstance(ast.parse(txt.replace("$", "_").replace("**=", "**"), mode="eval").body,
+                                    (ast.Name, ast.Attribute, ast.Call, ast.Subscript, ast.Constant))
+            except SyntaxError:
+                atomic = False
+            if not atomic:
+                return "(" + txt + ")"          # (-1*delta).days, not -1*delta.days
+        return txt
     return _re.sub(r"#(\d+)", rep, tok)
 
 
@@ -2128,7 +2140,18 @@ def hybridise(tree: ast.Module, text: str, rel: str) -> ast.Module:
                 all_equiv_or_same = False
                 continue
         if sa == sr:
-            body[i] = rnode
+            # the reference node may call private helpers the analysed module no longer has (they are inlined in the summaries):
+            # then the function is left as it stands - rules and interpreters must be able to resolve what the node names
+            cur = {q2 for q2, *_ in _iter_funcs(tree)}
+            needs = set()
+            for n_ in ast.walk(rnode):
+                if isinstance(n_, ast.Name) and n_.id in ref_funcs and ref_funcs[n_.id][0] is None:
+                    needs.add(n_.id)
+                elif isinstance(n_, ast.Attribute) and isinstance(n_.value, ast.Name) and n_.value.id in ("self", "cls") and rcls \
+                        and f"{rcls}.{n_.attr}" in ref_funcs:
+                    needs.add(f"{rcls}.{n_.attr}")
+            if needs <= cur:
+                body[i] = rnode
             stats["equivalent"].append(q)
         else:
             stats["different"].append(q)
